@@ -66,6 +66,8 @@ def explore(cdef, interp, max_paths=400):
             info["aborted"] += 1
         except Unsupported as e:
             info["undecided"].append(f"outside subset: {e}")
+            if os.environ.get("VERIF_DEBUG"):
+                traceback.print_exc()
         except RaisedInCode as e:
             info["undecided"].append(f"uncaught raise {e.exc_name} in contract")
         except RecursionError:
